@@ -97,7 +97,9 @@ def make_prior_group(h5_parent, dset_name, tool, parms, n, mask=None, results=No
 # event tracing / crash injection on h5py's file-modifying entry points
 # ------------------------------------------------------------------------------------------------
 
-class Crash(Exception):
+class Crash(BaseException):
+    """injected interruption; a BaseException (like KeyboardInterrupt) so that library code catching
+    `Exception` cannot swallow it; once raised, every later file-modifying call raises it again"""
     pass
 
 
@@ -115,6 +117,8 @@ class Tracer(object):
         self._depth = 0
 
     def _tick(self, ev):
+        if getattr(self, 'crashed', False):
+            raise Crash('already crashed')
         if not self.active or self._depth > 0:
             return
         idx = len(self.events)
@@ -122,6 +126,7 @@ class Tracer(object):
             if self.hard:
                 os._exit(9)
             self.active = False
+            self.crashed = True
             raise Crash('injected crash before event %d %r' % (idx, ev))
         self.events.append(ev)
 
